@@ -209,6 +209,35 @@ func reclaimCheck(ctx context.Context, se *stackEnv) (problems []string, stats m
 	return problems, stats
 }
 
+// missingReferencedParts: part rows (of objects AND of pending uploads) whose part
+// id is not held by the store the row names. No GC, no waiting: this is the state
+// right after a call returned.
+func missingReferencedParts(ctx context.Context, se *stackEnv) []string {
+	insp, err := vmodel.OpenInspector(se.dir)
+	if err != nil {
+		return nil
+	}
+	defer insp.Close()
+	refs, err := insp.AllPartRefs()
+	if err != nil {
+		return nil
+	}
+	held, err := vmodel.StorePartIDs(ctx, se.env.DB, se.s)
+	if err != nil {
+		return nil
+	}
+	var out []string
+	for st, ids := range refs {
+		for id := range ids {
+			if !held[st][id] {
+				out = append(out, fmt.Sprintf("store %s part %s", st, id))
+			}
+		}
+	}
+	sort.Strings(out)
+	return out
+}
+
 func problemSig(p string) string {
 	if i := strings.Index(p, ":"); i > 0 {
 		return p[:i]
